@@ -371,11 +371,24 @@ def ang_prop_check(ctx, c, outs):
     # phases: same order, names, lattice constants (3 decimals), proper point groups; ids 1..n
     orig = [(i, p) for i, p in xmap.phases if i != -1]
     back = [(i, p) for i, p in y.phases if i != -1]
+    dropped_msg = None
     if len(orig) != len(back):
-        return f"{len(orig)} phases {[p.name for _, p in orig]} came back as {len(back)} {[p.name for _, p in back]}"
-    if [i for i, _ in back] != list(range(1, len(back) + 1)):
-        return f"phase ids came back as {[i for i, _ in back]}, expected 1..{len(back)} in list order"
-    for (i0, p0), (i1, p1) in zip(orig, back):
+        # known finding: a phase without a point in the written data is dropped on load.  Everything ELSE is still
+        # checked (remaining phases keep their position-based ids, points keep their phase) and reported first.
+        used = {int(pid[j]) for j in full if mask[j] and pid[j] != -1}
+        kept = [(k + 1, i0, p0) for k, (i0, p0) in enumerate(orig) if i0 in used]
+        if len(kept) != len(back) or len(kept) == len(orig):
+            return f"{len(orig)} phases {[p.name for _, p in orig]} came back as {len(back)} {[p.name for _, p in back]}"
+        dropped_msg = (f"unused phase dropped: {len(orig)} phases {[p.name for _, p in orig]} came back as {len(back)} "
+                       f"{[p.name for _, p in back]}")
+        if [i for i, _ in back] != [k for k, _, _ in kept]:
+            return f"phase ids came back as {[i for i, _ in back]}, expected {[k for k, _, _ in kept]} (position in the written list)"
+        orig_cmp = [(i0, p0) for _, i0, p0 in kept]
+    else:
+        orig_cmp = orig
+        if [i for i, _ in back] != list(range(1, len(back) + 1)):
+            return f"phase ids came back as {[i for i, _ in back]}, expected 1..{len(back)} in list order"
+    for (i0, p0), (i1, p1) in zip(orig_cmp, back):
         if p0.name != p1.name and not (p0.name == "" and p1.name == f"phase{i1}"):
             return f"phase name {p0.name!r} came back as {p1.name!r}"
         if np.abs(np.array(p0.structure.lattice.abcABG()) - np.array(p1.structure.lattice.abcABG())).max() > 5.0001e-4:
@@ -389,7 +402,7 @@ def ang_prop_check(ctx, c, outs):
     exp_ids = [order.get(int(pid[j]), -1) if (mask[j] and pid[j] != -1) else -1 for j in full]
     if y.phase_id.tolist() != exp_ids:
         return f"phase ids {exp_ids[:12]}… came back as {y.phase_id.tolist()[:12]}…"
-    return None
+    return dropped_msg
 
 
 SITES = {
@@ -418,7 +431,11 @@ def pred_multiword_name(c):
     return any(len(p["name"].split()) > 1 for p in c["phases"])
 
 
-def pred_unused_phase(c):
+def pred_unused_phase(c, what=""):
+    return str(what).startswith("unused phase dropped") and has_unused_phase(c)
+
+
+def has_unused_phase(c):
     n = int(np.prod(c["shape"]))
     mask = [True] * n if c.get("mask") is None else c["mask"]
     pts = [j for j in G.view(c)[3] if mask[j]]
